@@ -152,8 +152,10 @@ Section TreeR.
 
   Lemma all_forall (Q : tree -> Prop) cs :
     (fix all (l : list tree) : Prop := match l with [] => True | c :: r => Q c /\ all r end) cs <-> Forall Q cs.
-  Proof. induction cs as [|c r IH]; split; intro H; try constructor; try tauto.
-    - apply H. - apply IH, H. - inversion H; subst. split; [assumption|now apply IH]. Qed.
+  Proof. induction cs as [|c r IH]; split; intro H.
+    - constructor. - exact I.
+    - destruct H as (Hc & Hr). constructor; [exact Hc|now apply IH].
+    - inversion H; subst. split; [assumption|now apply IH]. Qed.
 
   (** the message computed by the model for the edge above child [c] *)
   Lemma edge_msg_child u c : tree_ok c -> inside_at c ->
